@@ -141,6 +141,9 @@ def _address_binding_ok(st, subject, reqs):
     return False, "; ".join(tried) or "no Signer field with an address constraint"
 
 
+from analysis.accounts import canon_eq as CE  # noqa: E402
+
+
 def _token_account_constraints(tf):
     return set(tf.values("constraint"))
 
@@ -169,7 +172,7 @@ def _position_binding(facts, st, h, effect_blocks, subject_position=None):
         pos_fields = [f.name for f in st.fields if f.inner == "Position"]
         okp = None
         for pf in pos_fields:
-            if "%s.mint==%s.position_mint" % (ta, pf) in cons and "%s.amount==1" % ta in cons:
+            if CE("%s.mint==%s.position_mint" % (ta, pf)) in cons and CE("%s.amount==1" % ta) in cons:
                 okp = pf
         if okp is None:
             msgs.append("token account `%s` is not constrained to mint == <position>.position_mint && amount == 1 (has %s)" % (ta, sorted(cons)))
@@ -205,7 +208,7 @@ def _bundle_binding(facts, st, h, effect_blocks):
             continue
         cons = _token_account_constraints(tf)
         pbf = [f.name for f in st.fields if f.inner == "PositionBundle"]
-        if not any("%s.mint==%s.position_bundle_mint" % (ta, b) in cons for b in pbf) or "%s.amount==1" % ta not in cons:
+        if not any(CE("%s.mint==%s.position_bundle_mint" % (ta, b)) in cons for b in pbf) or CE("%s.amount==1" % ta) not in cons:
             msgs.append("bundle token account `%s` lacks mint == bundle.position_bundle_mint && amount == 1" % ta)
             continue
         mp, why = cfg.must_pass_call(h, bi)
@@ -343,8 +346,8 @@ def R1_effect_requires_authority(run):
                 for f in st.fields:
                     cons = _token_account_constraints(f)
                     for s in st.fields:
-                        if s.kind == "Signer" and "%s.owner==%s.key()" % (f.name, s.name) in cons and "%s.amount==1" % f.name in cons \
-                                and "%s.mint==%s.position_bundle_mint" % (f.name, subject) in cons:
+                        if s.kind == "Signer" and CE("%s.owner==%s.key()" % (f.name, s.name)) in cons and CE("%s.amount==1" % f.name) in cons \
+                                and CE("%s.mint==%s.position_bundle_mint" % (f.name, subject)) in cons:
                             ok = True
                             why = "%s.owner == Signer %s, mint == %s.position_bundle_mint, amount == 1" % (f.name, s.name, subject)
                 run.check("R1", inst, ok, "bundle deletion is not restricted to the bundle token holder: " + why, loc=loc, detail=why)
